@@ -116,7 +116,7 @@ static void scen_c03(int histories, int maxops, int cut_pct) {
         }
         c03_cut(&w, &b, n, 0);
         /* the administrative state under its own model (a fresh TPM: the model starts from the manufactured state) */
-        if (h % 2 == 1) { tpm2_fresh(h % 3 == 0 ? NULL : (h % 3 == 1 ? PROFILE_DEFAULT_V1 : PROFILE_CUSTOM)); tpm2_startup(&b, 0); w_reset(&w); c03_admin(&b, 30 + rnd(40)); continue; }
+        if (h % 3 != 0) { tpm2_fresh(h % 3 == 0 ? NULL : (h % 3 == 1 ? PROFILE_DEFAULT_V1 : PROFILE_CUSTOM)); tpm2_startup(&b, 0); w_reset(&w); c03_admin(&b, 30 + rnd(40)); continue; }
         /* drill: a counter is incremented and then deleted; its high-water mark must survive the power cut that follows */
         if (h % 2 == 0) {
             cmd_begin(&b, ST_SESSIONS, CC_NV_DefineSpace); b_u32(&b, RH_OWNER); auth_pw_s(&b, w.ownerAuth);
